@@ -150,6 +150,10 @@ def suite_config(ctx, res, n):
         shutil.rmtree(tmp, ignore_errors=True)
 
 
+# characters str.splitlines() treats as line boundaries but the csv reader / text-mode file iteration do not: legal in file names, and a
+# file name with one must reach the worker intact.  (CR and LF themselves are outside the domain: ninja rejects such a path before any
+# step runs — build.ninja cannot spell it — so no glyph map with them is ever written.)
+EXOTIC_SEPARATORS = ["\u2028", "\u2029", "\x85", "\x0b", "\x0c", "\x1c", "\x1d", "\x1e"]
 HOSTILE = ["a.svg", "with space.svg", "x,y.svg", 'q"uote.svg', "ünï-çødé.svg", "emoji_u1f600.svg", "tab\tname.svg", "trailing .svg", "semi;colon.svg",
            "'single'.svg", "a,b,\"c\",d.svg", "#hash.svg", "100%.svg", "back\\slash.svg", "  two-lead.svg", " lead.svg", "dir with space/e.svg", ",.svg", '"".svg']
 
@@ -188,6 +192,35 @@ def suite_csv(ctx, res, n):
             if cps:
                 ops.append({"op": "hex4", "cps": [str(c) for c in cps]})
                 meta.append(("h", line, [f"{c:04x}" for c in cps]))
+    # the path the build takes: write_glyphmap prints one csv_line per mapping through util.file_printer, the workers read the FILE with parse_csv
+    from nanoemoji import util as nutil
+    from nanoemoji.glyphmap import parse_csv
+    tmp = common.scratch_dir("gm")
+    try:
+        for k in range(max(4, n // 40)):
+            gms = []
+            for j in range(rng.randint(1, 6)):
+                sep = rng.choice(EXOTIC_SEPARATORS)
+                base = rng.choice(HOSTILE)
+                name = rng.choice([base, base[:1] + sep + base[1:], sep + base, base.replace(".svg", sep + ".svg"), f"a{sep}b,c.svg", f'q"{sep}".svg'])
+                cps = C04.gen_seq(rng)
+                gms.append(GlyphMapping(Path("picosvg") / name if rng.random() < 0.5 else Path(name), None if rng.random() < 0.6 else Path("bitmap") / name.replace(".svg", ".png"),
+                                        tuple(cps), glyph_name(cps)))
+            dest = tmp / f"g{k}.glyphmap"
+            with nutil.file_printer(str(dest)) as pr:
+                for gm in gms:
+                    pr(gm.csv_line())
+            try:
+                back = parse_csv(str(dest))
+            except Exception as e:  # noqa
+                back = ("EXC", type(e).__name__, str(e)[:200])
+            res.count(key=("csv-file", stable_hash([repr(g) for g in gms])), nontrivial=True)
+            res.stat("csv-file:rows=%d" % len(gms))
+            if back != tuple(gms):
+                res.add_cex("glyph mappings written to a .glyphmap file do not come back from parse_csv", {"mappings": [repr(g) for g in gms], "loaded": repr(back)[:600]},
+                            {"site": "csv-file-roundtrip", "names": [str(g.svg_file) for g in gms]})
+    finally:
+        shutil.rmtree(tmp, ignore_errors=True)
     import csv
     for (kind, line, row), m in zip(meta, ctx.driver.run(ops)):
         if kind == "w":
